@@ -28,17 +28,35 @@ RULE = ("cases = (finding, format) pairs: findings with generated ids / messages
         "and the predefined formats of cmdlineparser.cpp; non-trivial = some string field holds a byte outside [A-Za-z0-9 ._/-] "
         "or the template has >= 2 markers")
 EXPLANATION = ("Lean theorems about the executable models of ErrorMessage::toXML / fixInvalidChars / tinyxml2 PrintString (XML), "
-               "ErrorMessage::toString (text) and SarifReport::serialize + picojson escaping (SARIF); models tied to the working "
-               "tree by translators (entity table, predefined templates, critical ids, rng grammar) and by differential runs of "
-               "the real functions in-process; outputs re-parsed by expat / python json. Outside the model: StdLogger itself "
-               "(anonymous namespace; its duplicate filter is modelled and exercised through the CLI), readCode's file access "
-               "(the source line is a parameter), plist output, colours on a terminal, the JSON parser side of SARIF consumers.")
+               "ErrorMessage::toString (text) and SarifReport::serialize + picojson (SARIF); models tied to the working tree by translators "
+               "(entity table, predefined templates, critical ids, rng grammar, shape of the {inconclusive: loop) and by differential runs of "
+               "the real functions in-process and of the binary; outputs re-parsed by expat / xmllint / python json. "
+               "Hypotheses of the restricted theorems (each with a counterexample theorem and a replayed witness): XML round trip / "
+               "well-formedness needs RawOK (id, guideline, classification, file0, file names, symbol names without C0 control bytes and "
+               "valid UTF-8: F26b); rng conformance needs rngPlain (no guideline/classification/remark, origfile = file, one of the six "
+               "user-visible severities); text = simultaneous substitution needs templates that tokenize and valuesOK (no substituted value "
+               "holds a '{': F10; a non-tokenizing template may not return without the pos2 guard: F26f, fixed); 'no finding dropped' needs "
+               "pairwise distinct text renderings (F26e); SARIF: the document text is proved to parse (strict byte-level JSON reader) to "
+               "the tree whose results are the findings WITH a call stack (unlocated findings are dropped by sarifreport.cpp) - valid UTF-8 "
+               "of that text is not provable (F26c) and is decided by P_impl. "
+               "Outside the model: StdLogger itself (anonymous namespace; its duplicate filter is modelled as stdLogger and tied through "
+               "the CLI), XML header/footer (real functions composed in the CLI tie; xml_report_partial is about the list of <error> "
+               "elements), readCode's file access (the source line is a parameter), setmsg/$symbol, getGuideline, plist output, colours on "
+               "a terminal, rng datatype facets (python + xmllint only).")
+ASSUMPTIONS = [
+    "XmlRd (the model's XML reader) accepts a subset of XML 1.0; 'XmlRd accepts => a conforming processor accepts with the same content' is checked against expat on every real output and on mutated documents (tie R), not proved",
+    "the model's JSON reader is byte-level: UTF-8 validity of the SARIF text is outside the theorems (F26c; P_impl decodes strictly)",
+    "mFileName is taken as given (Path::simplifyPath outside the model; the harness answers 'premise' when it changes a name)",
+    "std::isprint in the C locale (cppcheck never calls setlocale); char is signed (x86-64 g++)",
+    "ids are NCNames and Severity::none / internal findings are never written (premise of the rng P_impl)",
+]
 MODULES = ["Cppcheck.Props.C26"]
 THEOREMS = ["Cppcheck.C26." + t for t in (
     "gen_entities_eq", "predefined_templates_wf",
     "toXML_roundtrip_partial", "toXML_wf_partial", "rawOK_ignores_messages", "toXML_wf_counterexample", "toXML_roundtrip_counterexample",
     "rng_els", "rng_error_names", "rng_loc_names", "rng_sev", "toXML_conforms_rng_partial",
-    "sarif_results", "sarif_rules", "sarif_drops_unlocated", "sarif_string_roundtrip",
+    "sarif_results_tree", "sarif_rules_tree", "sarif_drops_unlocated", "sarif_string_roundtrip", "json_serialize_roundtrip", "sarif_document",
+    "sarif_level_spec", "xml_report_partial",
     "render_eq_spec_partial", "render_injection_counterexample", "render_hang_counterexample",
     "each_once", "stdLogger_all_partial", "xml_dedup_by_text_counterexample")]
 
@@ -882,6 +900,7 @@ def run(ctx, res):
     import time
     rng = ctx.rng
     thorough = ctx.tier == "thorough"
+    res.assumptions.extend(ASSUMPTIONS)
     t0 = time.time()
     phases = res.extra.setdefault("phase_seconds", {})
 
@@ -1093,6 +1112,31 @@ def run(ctx, res):
         if impl[k].startswith("throw"):
             continue
         check_sarif_case(res, groups[k], core.unhx(impl[k]), "group %d" % k)
+    # J: the model's strict JSON reader (the one `sarif_document` is about) on the REAL documents == python json
+    jops = ["jparse " + impl[k] for k in keep3 if not impl[k].startswith("throw")]
+    rc, jout, err = core.run_lines(drv, [], jops, timeout=900)
+    jbad = []
+    for op, o in zip(jops, jout):
+        doc = core.unhx(op.split(" ")[1])
+        try:
+            j = json.loads(doc.decode("utf-8"))
+        except (UnicodeDecodeError, ValueError):
+            res.count("json-reader:python-rejects(non-utf8)/model-%s" % ("accepts" if o.startswith("json=1") else "rejects"))
+            if not o.startswith("json=1"):
+                jbad.append((doc[:200], o))       # byte-level grammar must still hold
+            continue
+        want = []
+        for r in j["runs"][0]["results"]:
+            locs = r["locations"]
+            want.append("%s %s %s %d%s" % (core.hx(r["ruleId"].encode("utf-8")), core.hx(r["message"]["text"].encode("utf-8")), r["level"], len(locs),
+                                            "".join(" %s %d %d" % (core.hx(l["physicalLocation"]["artifactLocation"]["uri"].encode("utf-8")),
+                                                                   l["physicalLocation"]["region"]["startLine"], l["physicalLocation"]["region"]["startColumn"]) for l in locs)))
+        exp = ("json=1 " + " ; ".join(want)).rstrip() if want else "json=1 "
+        res.count("json-reader:both-accept")
+        if o.rstrip() != exp.rstrip():
+            jbad.append((exp[:300], o[:300]))
+    res.oblig("J:json-reader-model-vs-python-json", not jbad, "correspondence", "" if not jbad else "model reader and python json differ on a real SARIF document: %r" % (jbad[0],))
+    res.traces_validated += len(jops) - len(jbad)
 
     mark("sarif")
     cli_tier(ctx, res, thorough)
@@ -1284,14 +1328,14 @@ def cli_tier(ctx, res, thorough):
     cases = [c for c in corpus_cases() if c.get("kind") == "cli"]
     # duplicate filter: the same finding through two translation units; two findings one text
     inc = [[h(b"a.c"), h(b'#include "h.h"\n')], [h(b"b.c"), h(b'#include "h.h"\n')]]
-    for mode in ("text", "xml"):
+    for mode in ("text", "xml", "sarif"):
         cases.append(dict(kind="cli", name="dup-same-finding", mode=mode, files=[[h(b"h.h"), 3, h(b"dup")]], extra=inc, cmdline=[h(b"a.c"), h(b"b.c")],
                           findings=[[h(b"h.h"), 3, h(b"dup")], [h(b"h.h"), 3, h(b"dup")]], **(dict(template=h(b"{file}:{line}:{message}")) if mode == "text" else {})))
     cases.append(dict(kind="cli", name="same-text-template-id", mode="text", template=h(b"{id}"), files=[[h(b"a.c"), 1, h(b"A")], [h(b"b.c"), 1, h(b"B")]]))
     cases.append(dict(kind="cli", name="same-text-template-id", mode="sarif", template=h(b"{id}"), files=[[h(b"a.c"), 1, h(b"A")], [h(b"b.c"), 1, h(b"B")]]))
     cases.append(dict(kind="cli", name="plain", mode="xml", files=[[h(b"a.c"), 2, h(b"plain <text> & more")], [h(b"dir name/b c.c"), 1, h(b"x")]]))
     cases.append(dict(kind="cli", name="plain", mode="sarif", files=[[h(b"a.c"), 2, h(b"plain \"text\" \\ / \x01")]]))
-    n = 60 if thorough else 3
+    n = 60 if thorough else 9
     for _ in range(n):
         k = rng.choice([1, 2, 2, 3])
         files = []
